@@ -532,6 +532,12 @@ fn run(line: &str) -> String {
             }
             out
         }
+        "welzl" | "epos6" => {
+            let n = a.u();
+            let pts: Vec<DVec3> = (0..n).map(|_| a.v()).collect();
+            let b = if cmd == "welzl" { vh::bounding_sphere::welzl(&pts) } else { vh::bounding_sphere::epos6(&pts) };
+            format!("{} {:e}", fv(b.center), b.radius)
+        }
         "epos6_spheres" => {
             let n = a.u();
             let sp: Vec<Sphere> = (0..n).map(|_| Sphere::new(a.v(), a.f())).collect();
